@@ -1420,9 +1420,27 @@ class Collection(object):
 
     def _find_and_modify(self, query, projection=None, update=None,
                          upsert=False, sort=None,
-                         return_document=ReturnDocument.BEFORE, session=None, **kwargs):
+                         return_document=ReturnDocument.BEFORE, session=None, hint=None,
+                         collation=None, array_filters=None, let=None, **kwargs):
         if session:
             raise_not_implemented('session', 'Mongomock does not handle sessions yet')
+        if hint:
+            raise NotImplementedError(
+                'The hint argument of find and modify is valid but has not been implemented in '
+                'mongomock yet')
+        if collation:
+            raise_not_implemented(
+                'collation',
+                'The collation argument of find and modify is valid but has not been implemented '
+                'in mongomock yet')
+        if array_filters:
+            raise_not_implemented(
+                'array_filters', 'Array filters are not implemented in mongomock yet.')
+        if let:
+            raise_not_implemented(
+                'let',
+                'The let argument of find and modify is valid but has not been implemented in '
+                'mongomock yet')
         remove = kwargs.get('remove', False)
         if kwargs.get('new', False) and remove:
             # message from mongodb
